@@ -3,7 +3,7 @@
 import json, os, shutil, sys
 wid, name, prop = sys.argv[1:4]
 meta = json.loads(sys.argv[4])
-src = "/tmp/wt/%s/SEED" % wid
+src = os.environ.get("SEED_WT", "/tmp/wt") + "/%s/SEED" % wid
 dst = "/verif/seeded/%s" % name
 os.makedirs(dst, exist_ok=True)
 for f in os.listdir(src):
